@@ -69,6 +69,10 @@ def main():
         notes.append(f"lake build: {'ok' if b_ok else 'FAILED'} in {dt:.1f}s")
         if not b_ok:
             errs = [l for l in out.splitlines() if "error" in l][:8]
+            # a proof or model that no longer checks is reported by Lean with a source position; anything else (compiler,
+            # linker, file system) is trouble of the tooling, never a statement about the code under test
+            if not any(".lean:" in l for l in errs):
+                raise lib.ToolTrouble("lake build failed without a Lean error position:\n" + "\n".join(errs))
             broken.append({"kind": "proof", "name": "lake build (Props/Lemmas/Model no longer check against the regenerated constants)",
                            "detail": "\n".join(errs)})
         else:
